@@ -12,6 +12,7 @@ import (
 	"github.com/ethereum/go-ethereum/crypto"
 	"github.com/ethereum/go-ethereum/p2p/enode"
 	"github.com/ethereum/go-ethereum/p2p/enr"
+	"github.com/ethereum/go-ethereum/rlp"
 )
 
 var (
@@ -114,4 +115,53 @@ func IDAtLogDist(base enode.ID, d int, fill enode.ID) enode.ID {
 		}
 	}
 	return out
+}
+
+// NullNodePadded is NullNode with the record grown to exactly size bytes of RLP
+// (size <= 300, the ENR limit) when possible; size 0 means no padding.
+func NullNodePadded(id enode.ID, ip net.IP, udp int, seq uint64, size int) *enode.Node {
+	build := func(pad int) (n *enode.Node) {
+		defer func() {
+			if recover() != nil { // record larger than the 300-byte limit
+				n = nil
+			}
+		}()
+		var r enr.Record
+		if ip != nil {
+			r.Set(enr.IP(ip))
+		}
+		if udp != 0 {
+			r.Set(enr.UDP(udp))
+		}
+		if pad >= 0 {
+			r.Set(enr.WithEntry("zz", make([]byte, pad)))
+		}
+		r.SetSeq(seq)
+		return enode.SignNull(&r, id)
+	}
+	if size <= 0 {
+		return build(-1)
+	}
+	best := build(-1)
+	lo, hi := 0, 280 // binary search for the largest pad whose record is <= size
+	for lo <= hi {
+		mid := (lo + hi) / 2
+		n := build(mid)
+		if n != nil && RecordSize(n) <= size && RecordSize(n) <= 300 {
+			best = n
+			lo = mid + 1
+		} else {
+			hi = mid - 1
+		}
+	}
+	return best
+}
+
+// RecordSize is the RLP size of a node's record.
+func RecordSize(n *enode.Node) int {
+	b, err := rlp.EncodeToBytes(n.Record())
+	if err != nil {
+		return -1
+	}
+	return len(b)
 }
